@@ -155,7 +155,7 @@ class SeqGen:
             n = ref.final - ref.consumed + r.randrange(-2, 3)
         else:
             n = r.choice([4095, 4096, 4097, 65536])
-        n = max(n, 0)
+        n = min(max(n, 0), MAXOFF)
         if ref.expect_skip(n) is None:
             ref.apply_skip(n)
         self.emit(f"skip {n}")
